@@ -350,3 +350,55 @@ def thermal_kernel_np_c09(ctx):
 def thermal_kernel_nb_c09(ctx):
     import contracts.C10 as C10
     C10._kernel(ctx, C10.TBN + ":derivatives_thermal_numba")
+
+
+# ---------------------------------------------------------------------------------------------
+# start values taken from the node pit while the pit is being filled: the pit is filled component by component
+# (initialize_pit: node entries, branch entries, component array of one component, then the next), so a value a component
+# READS from a junction row is final only if no component that may come later in net.component_list WRITES that column
+
+@unit("C09", "pit_fill_order", functions=["pandapipes.pf.pipeflow_setup:initialize_pit"], engine="E4")
+def pit_fill_order(ctx):
+    """read-before-final-write scan over the create_pit_* methods of all component classes (junctions are always first in
+    component_list; every other order is the user's creation order).  Columns that are only START values of unknowns that the
+    calculation of the mode determines (PINIT, MDOTINIT) are exempt; a temperature start value is an INPUT of the purely
+    hydraulic calculation, so a read of TINIT that a later writer overrides makes hydraulic results depend on which end of
+    a branch the fixed junction is (orientation) and on creation order -- finding F35."""
+    ctx.assume("A6")
+    import ast
+    import os
+    comps = classes.all_component_classes()
+    ctx.decided("component-classes-found", "cover", len(comps) >= 12, witness=str(len(comps)))
+    node_names = ("node_pit", "junction_pit")
+    writers, readers = {}, {}
+    for c in comps:
+        for meth in ("create_pit_node_entries", "create_pit_branch_entries"):
+            fr = classes.lookup_method(c, meth)
+            if fr is None or fr.cls != c.name:          # inherited bodies are attributed to the class that defines them
+                continue
+            for n in ast.walk(fr.node):
+                if isinstance(n, ast.Subscript) and isinstance(n.value, ast.Name) and n.value.id in node_names \
+                        and isinstance(n.slice, ast.Tuple) and len(n.slice.elts) == 2:
+                    col = ast.unparse(n.slice.elts[1])
+                    if isinstance(n.ctx, ast.Store):
+                        writers.setdefault(col, set()).add(c.name)
+                    else:
+                        readers.setdefault(col, set()).add((c.name, meth, n.lineno))
+            # set_fixed_node_entries writes PINIT / TINIT (mode 'p' / 't') on behalf of its caller
+            for n in ast.walk(fr.node):
+                if isinstance(n, ast.Call) and ast.unparse(n.func) == "set_fixed_node_entries" and n.args:
+                    mode = ast.unparse(n.args[-1]).strip("'\"")
+                    writers.setdefault("PINIT" if mode == "p" else "TINIT_NODE", set()).add(c.name)
+                    writers.setdefault("PINIT" if mode == "p" else "TINIT", set()).add(c.name)
+    ctx.decided("readers-and-writers-found", "cover", len(readers) >= 3 and len(writers) >= 3, witness=str((sorted(readers), sorted(writers))))
+    exempt = {"PINIT", "MDOTINIT"}
+    for col in sorted(readers):
+        base = col.replace("_NODE", "")
+        if base in exempt:
+            continue
+        late = sorted(w for w in writers.get(col, set()) | writers.get(base, set()) if w != "Junction")
+        for cname, meth, ln in sorted(readers[col]):
+            others = [w for w in late if w != cname]
+            ctx.decided("start-value-read-is-final/%s.%s/%s" % (cname, meth, col), "order", not others,
+                        witness="%s.%s (line %d) reads %s of a junction row while the pit is being filled; %s write(s) that column in their "
+                                "own create_pit_node_entries and may come later in component_list" % (cname, meth, ln, col, others))
